@@ -3,6 +3,7 @@ import Dcg.Proofs.ResolverMultidoc
 import Dcg.Proofs.ResolverWorklist
 import Dcg.Proofs.ResolverDedupe
 import Dcg.Proofs.ResolverWalk
+import Dcg.Proofs.IdRegistry
 /-
 C06 — each named schema yields exactly one model and every reference lands on it.
 Only property theorems live here; helper lemmas are in Dcg/Proofs/Resolver.lean.
@@ -541,5 +542,138 @@ anchor family of the end-to-end campaign declares anchors on entries of definiti
 def parse_id_descends_into_every_schema_field : Prop := ∀ k ∈ schemaFields, k ∈ parseIdDescends
 
 end Walk
+
+/-! ### the `$id` registry: `parse_id`, `add_id`, and `resolve_ref` of a reference that names an `$id` -/
+
+section Ids
+open Dcg.Model.IdRegistry Dcg.Proofs.IdRegistry
+
+/-- Model `Model.IdRegistry.collectIds` of the walk `JsonSchemaParser.parse_id`: a walk that descends into the keywords
+`kws` hands EVERY `$id` written in a schema all of whose keywords are in `kws` to `add_id` — at every depth. -/
+theorem parse_id_walk_complete (kws : List Str) (t : ISch) (h : ∀ k ∈ keywordsOf t, k ∈ kws) :
+    collectIds kws t = allIds t := collectIds_complete kws t h
+
+/-- … and never an `$id` that is not written in the schema. -/
+theorem parse_id_walk_sound (kws : List Str) (t : ISch) (i : Str) (h : i ∈ collectIds kws t) : i ∈ allIds t :=
+  collectIds_sound kws t i h
+
+/-- The hypothesis is needed keyword by keyword: an `$id` whose only way in leads through a keyword the walk does not
+know is not registered — in the source as it is now that is `oneOf` (see `parse_id_descends_into_every_schema_field`,
+which stays a proposition: it is FALSE of the code as it is), so `$ref: "#x"` to `{oneOf: [{$id: "#x"}]}` raises
+`KeyError` (`anchor_below_unknown_keyword_raises`). An `$id` on the walked object itself is always handed over. -/
+theorem parse_id_walk_misses_below_unknown_keyword (kws : List Str) (kw seg i : Str) (h : kw ∉ kws) :
+    collectIds kws (.sub kw seg (.id i .nil) .nil) = [] ∧ allIds (.sub kw seg (.id i .nil) .nil) = [i] := by
+  simp [collectIds, allIds, h]
+
+theorem top_id_is_walked (kws : List Str) (t : ISch) (i : Str) (h : i ∈ topIds t) : i ∈ collectIds kws t :=
+  topIds_collected kws t i h
+
+example : collectIds parseIdDescends
+    (.id (L "#a") (.sub (L "properties") (L "p") (.id (L "#b") .nil) (.sub (L "oneOf") (L "0") (.id (L "#c") .nil) .nil)))
+    = [L "#a", L "#b"] := by decide
+
+/-- EVERY `$id` DECLARED AT A POSITION THE WALK VISITS IS REGISTERED: after `parse_id(obj, path)` (any keyword list, any
+resolver environment — current root, root id, files of the input directory, ids registered before —, `path` not itself an
+id reference, which holds for every path `_parse_file` walks with) each visited `$id` is a key of the id table and its
+value is what `resolve_ref(path)` answers in the resulting state. -/
+theorem declared_id_is_registered (kws : List Str) (e e' : Env) (path : List Str) (t : ISch)
+    (hp : pathNotId path = true) (h : parseId kws e path t = some e') (i : Str) (hi : i ∈ collectIds kws t) :
+    ∃ v, resolveRefId e' (joinPath path) = .ok v ∧ idGet e'.ids i = some v := by
+  obtain ⟨r1, r2, r3, _, r5⟩ := addIds_spec path hp (collectIds kws t) e e' h
+  obtain ⟨v, hv, hg⟩ := r5 i hi
+  refine ⟨v, ?_, hg⟩
+  have he : e' = { e with ids := e'.ids } := by
+    cases e; cases e'; simp_all
+  rw [he, resolve_path_ids_irrel e _ path hp]
+  exact hv
+
+/-- ids the walk does not visit are left as they were (a later walk does not disturb an anchor it does not declare). -/
+theorem other_ids_untouched (kws : List Str) (e e' : Env) (path : List Str) (t : ISch)
+    (hp : pathNotId path = true) (h : parseId kws e path t = some e') (k : Str) (hk : k ∉ collectIds kws t) :
+    idGet e'.ids k = idGet e.ids k :=
+  (addIds_spec path hp (collectIds kws t) e e' h).2.2.2.1 k hk
+
+/-- A `$ref` THAT NAMES A REGISTERED `$id` RESOLVES TO THE PATH OF THE WALK THAT REGISTERED IT: for an id reference `i`
+(`#name`) visited by `parse_id(obj, path)`, `resolve_ref(i)` is the answer `v` of `resolve_ref(path)` passed through the
+URL step once more, and equals it whenever `v` is not a URL (every local document: then the anchor reference and the
+pointer reference `path` have ONE canonical registry key, hence — `registry_functional` — one `Reference`, one model). -/
+theorem anchor_ref_resolves_to_walk_path (kws : List Str) (e e' : Env) (path : List Str) (t : ISch)
+    (hp : pathNotId path = true) (h : parseId kws e path t = some e') (i : Str) (hi : i ∈ collectIds kws t)
+    (hid : isIdRef i = true) :
+    ∃ v, resolveRefId e' (joinPath path) = .ok v ∧ resolveRefId e' i = urlStep e' v ∧
+      (isUrl v = false → resolveRefId e' i = resolveRefId e' (joinPath path)) := by
+  obtain ⟨v, hv, hg⟩ := declared_id_is_registered kws e e' path t hp h i hi
+  refine ⟨v, hv, resolve_idRef e' i v hid hg, fun hu => ?_⟩
+  rw [resolve_idRef e' i v hid hg, urlStep_not_url e' v hu, hv]
+
+/-- non-vacuity: `main.json` with `definitions/Pet = {$id: "#pet"}`: `#pet` and `#/definitions/Pet` both resolve to
+`main.json#/definitions/Pet`; under a URL root id as well -/
+example :
+    let e : Env := { root := [L "main.json"], rootId := some (L "https://example.com/schemas/root.json"), files := [L "main.json"], ids := [] }
+    let path := [L "main.json", L "#/definitions", L "Pet"]
+    pathNotId path = true ∧
+    (parseId parseIdDescends e path (.id (L "#pet") .nil)).map (fun e' =>
+      (resolveRefId e' (L "#pet"), resolveRefId e' (L "#/definitions/Pet"),
+       resolveRefId e' (L "https://example.com/schemas/root.json#/definitions/Pet"))) =
+      some (.ok (L "main.json#/definitions/Pet"), .ok (L "main.json#/definitions/Pet"), .ok (L "main.json#/definitions/Pet")) := by
+  decide +kernel
+
+/-- FULL-STRENGTH statement (what C06 asks for): a reference to a registered `$id` resolves like the JSON pointer of the
+schema that DECLARES it. FALSE of the code: `parse_id` recurses with the SAME `path`, so by
+`anchor_ref_resolves_to_walk_path` every nested `$id` resolves to the path of the walked entry. Holds for ids declared on
+the walked object itself (`top_id_is_walked` + `anchor_ref_resolves_to_walk_path`). -/
+def anchor_lands_on_declaring_schema : Prop :=
+  ∀ (kws : List Str) (e e' : Env) (root : List Str) (ptr : Str) (t : ISch),
+    parseId kws e (root ++ [ptr]) t = some e' →
+    ∀ ip ∈ idsWithPtr ptr t, ip.1 ∈ collectIds kws t → isIdRef ip.1 = true → resolveRefId e' ip.1 = resolveRefId e' ip.2
+
+/-- refutation (root cause of known finding C06-K4, replayed on the real parser by the id-registry campaign and end to
+end by the K4 witness): `definitions/Pet = {properties: {p: {$id: "#deep"}}}` — `#deep` resolves to
+`main.json#/definitions/Pet`, the pointer of the declaring schema to `main.json#/definitions/Pet/properties/p`. -/
+theorem nested_anchor_lands_on_enclosing_definition : ¬ anchor_lands_on_declaring_schema := by
+  intro h
+  have := h parseIdDescends { root := [L "main.json"], rootId := none, files := [L "main.json"], ids := [] }
+    { root := [L "main.json"], rootId := none, files := [L "main.json"], ids := [(L "#deep", L "main.json#/definitions/Pet")] }
+    [] (L "#/definitions/Pet") (.sub (L "properties") (L "p") (.id (L "#deep") .nil) .nil)
+    (by decide +kernel) (L "#deep", L "#/definitions/Pet/properties/p") (by decide +kernel) (by decide +kernel) (by decide +kernel)
+  revert this
+  decide +kernel
+
+/-- an anchor below a keyword the walk does not know is not registered: the reference raises (`KeyError`) -/
+theorem anchor_below_unknown_keyword_raises (kws : List Str) (e e' : Env) (path : List Str) (kw seg i : Str)
+    (hk : kw ∉ kws) (hid : isIdRef i = true) (hfresh : idGet e.ids i = none)
+    (h : parseId kws e path (.sub kw seg (.id i .nil) .nil) = some e') : resolveRefId e' i = .raised := by
+  have hc : collectIds kws (.sub kw seg (.id i .nil) .nil) = [] := (parse_id_walk_misses_below_unknown_keyword kws kw seg i hk).1
+  simp only [parseId, hc, addIds, Option.some.injEq] at h
+  subst h
+  exact resolve_idRef_unregistered e i hid hfresh
+
+example : (L "oneOf") ∉ parseIdDescends ∧ isIdRef (L "#x") = true := by decide
+
+/-- `resolve_ref` is NOT idempotent under a root id with a directory part that is not a URL: with
+`$id: "schemas/root.json"` the reference `other.json` (no such file in the input directory) resolves to
+`schemas/other.json#`, and that answer resolves to `schemas/schemas/other.json#` (same mechanism as
+`resolveIn_not_idempotent_below_base`; replayed on the real resolver by the second round of the id-registry campaign). -/
+theorem resolveRefId_not_idempotent_under_relative_root_id :
+    let e : Env := { root := [L "main.json"], rootId := some (L "schemas/root.json"), files := [L "main.json"], ids := [] }
+    resolveRefId e (L "other.json") = .ok (L "schemas/other.json#") ∧
+      resolveRefId e (L "schemas/other.json#") = .ok (L "schemas/schemas/other.json#") := by
+  decide +kernel
+
+/-- without a root id and for a registered anchor whose value is a local path, resolving the ANSWER again gives the
+answer (the part of idempotence C06 needs: the registry key of an anchor is a fixed point when it is `file#pointer`
+with a plain relative file or a pointer of the current single document). -/
+theorem anchor_answer_is_fixed_point (root : List Str) (files : List Str) (ids : List (Str × Str)) (i v p : Str)
+    (hroot : RootOk root) (hid : isIdRef i = true) (hg : idGet ids i = some v) (hu : isUrl v = false)
+    (hv : resolveRef root v = .ok p) :
+    resolveRefId { root := root, rootId := none, files := files, ids := ids } i = .ok v ∧ resolveRef root p = .ok p := by
+  refine ⟨?_, resolveRef_idem hroot hv⟩
+  rw [resolve_idRef _ i v hid hg, urlStep_not_url _ v hu]
+
+example : RootOk [L "main.json"] ∧ isIdRef (L "#pet") = true ∧ isUrl (L "main.json#/definitions/Pet") = false ∧
+    resolveRef [L "main.json"] (L "main.json#/definitions/Pet") = .ok (L "main.json#/definitions/Pet") := by
+  refine ⟨.inr (by decide), by decide, by decide, by decide⟩
+
+end Ids
 
 end Dcg.Props.C06
